@@ -246,7 +246,7 @@ def _plain_run_mp_off(cfg, timeout):
 
 SUBCHECKS = [
     SubCheck(name="schedules_histories_hashseeds", strategy=schedule_case, execute=execute,
-             budget={"quick": 48, "thorough": 2400}, shards={"quick": 16, "thorough": 16},
+             budget={"quick": 48, "thorough": 800}, shards={"quick": 16, "thorough": 16},
              modes={"quick": ["nojit"], "thorough": ["nojit", "jit"]}, min_nontrivial_fraction=0.3,
              shrink={"quick": False, "thorough": True}),
 ]
